@@ -6,6 +6,7 @@ import GeonumModel.Lemmas.Exact
 import GeonumModel.Lemmas.ExactAdd
 import GeonumModel.Props.C01
 import GeonumModel.Props.C06
+import GeonumModel.Spec.RoundWitness
 
 set_option linter.unusedSectionVars false
 set_option linter.unusedVariables false
@@ -380,5 +381,18 @@ end E
 
 
 example {F : Type} [FloatSpec F] : (⟨one, ⟨zero, 1⟩⟩ : Geonum F).angle.Inv := inv_zero 1
+
+
+/-! ### R — on the arithmetic that really rounds (`R64`) -/
+section R
+
+/-- (R) sigmoid strictly inside `(0, |g|)` and tanh bounded by `|g|`, for every binary64 number in the domain -/
+theorem activations_rounded {g : Geonum R64} (hpos : 1 / 10 ^ 100 ≤ g.mag.v) (hle : g.mag.v ≤ 10 ^ 100) (ha : g.angle.Inv) :
+    (0 < (ML.activate g .sigmoid).mag.v ∧ (ML.activate g .sigmoid).mag.v < g.mag.v) ∧
+    |(ML.activate g .tanh).mag.v| ≤ g.mag.v :=
+  ⟨sigmoid_bounds (F := R64) trivial hpos hle ha,
+   tanh_bound (F := R64) trivial (le_trans (by positivity) hpos) ha⟩
+
+end R
 
 end GeonumModel.C19
